@@ -1312,13 +1312,27 @@ impl Model {
 
         // ---- small retention: the stream may jump forward over evicted messages (never backward)
         if self.lossy && shared.is_empty() {
-            if let Some(mi) = midx {
+            // (clears of retained messages carry no identity: the first one at or after the stream position counts)
+            let midx_lossy = if payload.is_empty() {
+                let from = cands
+                    .iter()
+                    .map(|i| &self.sessions[&client].subs[*i])
+                    .filter(|s| s.group.is_none() && s.closed_at.is_none())
+                    .map(|s| s.next)
+                    .min();
+                from.and_then(|f| (f..self.log.len()).find(|i| self.log[*i].topic == topic && self.log[*i].payload.is_empty()))
+            } else {
+                midx
+            };
+            if let Some(mi) = midx_lossy {
                 let ahead: Vec<usize> = cands
                     .iter()
                     .copied()
                     .filter(|i| {
                         let s = &self.sessions[&client].subs[*i];
-                        s.group.is_none() && s.closed_at.is_none() && mi >= s.next && mi >= s.effect_idx && (s.qos == p.qos || s.resubscribed_qos_changed)
+                        // (a resumed session restarts at its oldest unacknowledged forward, which may lie before a subscription
+                        // that replaced an earlier one on the same filter: `next` is then below `effect_idx`)
+                        s.group.is_none() && s.closed_at.is_none() && mi >= s.next && (mi >= s.effect_idx || s.next < s.effect_idx) && (s.qos == p.qos || s.resubscribed_qos_changed)
                     })
                     .collect();
                 if ahead.len() == 1 {
